@@ -70,6 +70,12 @@ def clamp (v n : Int) : Int :=
   let v := if v < 0 then 0 else v
   if v > n then n else v
 
+/-- `samples_per_seg = int(rseg/dx + spsOffset)`; the window is `[c + ic − s, c + ic + s)` -/
+def spsOffset : Int := 2
+
+/-- index the code takes for the array centre: `int(ceil(n/2))` -/
+def centreIndex (n : Int) : Int := -((-n) / 2)
+
 /-- `c` = index the code takes for the array centre, `ic = int(center/dx)`, `s` = samples per segment,
 `n` = axis length -/
 def windowLo (c ic s n : Int) : Int := clamp (c + ic - s) n
